@@ -3,6 +3,7 @@ transitions on the real code, trace validation, findings ledger, evidence files.
 Python 3 standard library only."""
 import atexit, json, os, re, shutil, subprocess, sys, tempfile, time, glob, hashlib
 
+os.environ.setdefault("JAVA_TOOL_OPTIONS", "-Xss64m")   # the file-format operators recurse over byte sequences
 VERIF = "/verif"
 REPO = "/repo"
 SPEC = os.path.join(VERIF, "spec")
@@ -131,7 +132,7 @@ def replay_slice(module, cfg_template, consts, ezdrive, workers=None, nproc=None
     # bash pipeline: TLC | tee(non-edge lines -> log) | grep edges | split -> ezdrive replay
     pipe = ("set -o pipefail; timeout %d tlc -noGenerateSpecTE -workers %d -metadir %s -config %s %s 2>&1 "
             "| tee >(grep -v '^\"{' > %s) | grep '^\"{' | tee >(awk '(NR==5 || NR%%%d==77) && c<4 {print; c++}' > %s/samples.txt) "
-            "| split -n r/%d -u --filter='%s replay --dir %s > %s/out.$FILE' - x"
+            "| split -n r/%d -u --filter='%s replay --dir %s/d.$FILE > %s/out.$FILE' - x"
             % (timeout, workers, md, cfg, module, tlclog, sample_every, work, nproc, ezdrive, work, work))
     t0 = time.time()
     r = subprocess.run(["bash", "-c", pipe], cwd=SPEC, stdout=subprocess.PIPE, stderr=subprocess.STDOUT, text=True)
